@@ -258,6 +258,63 @@ def run_split(chk, fx, ser, closure, units):
             chk.info(r, "waiver %s in tables/c11_split_waived.json not needed on this tree" % k)
 
 
+def run_ptr(chk):
+    """C11.ptr: the pointer handlers of the generic Serializer."""
+    r = chk.rule("C11.ptr", "Serializer pointer handlers: shared_ptr transfers the pointer's identity first and nothing more for a null pointer; while packing the pointee follows exactly at the first occurrence of an identity (count == 0), which is then recorded; while unpacking the first occurrence creates the object, records it under the identity and unpacks into it, every later occurrence aliases the recorded object - so sharing survives and pack and unpack consume the same bytes; unique_ptr transfers a presence flag and the pointee iff present, and unpacks the pointee iff the flag is 1", floor=7)
+    probe = os.path.join(core.VERIF, "probes", "serializer_probe.cpp")
+    fx = chk.facts([probe], files_re="^/repo/opm/common/utility/Serializer\\.hpp$")
+    sp = [f for f in fx.fns if f["n"] == "shared_ptr" and f.get("cls") == "Opm::Serializer" and f.get("body")]
+    upf = [f for f in fx.fns if f["n"] == "unique_ptr" and f.get("cls") == "Opm::Serializer" and f.get("body")]
+    if len(sp) != 1 or len(upf) != 1:
+        raise core.AnalysisBroken("Serializer::shared_ptr / unique_ptr handlers not found")
+    sp, upf = sp[0], upf[0]
+
+    def clause(key, f, ok, found, want, line=None):
+        chk.instance(r, key, sample=dict(found=found))
+        if not ok:
+            chk.violation(r, key, "Serializer::%s: %s; required: %s" % (f["n"], found, want), f["file"], line or f["l"])
+    d = sp["params"][0]["n"]
+    top = [x for x in stmt_list(sp["body"]) if show(x).strip()]
+    idv = [v["n"] for n in top if n["k"] == "Decl" for v in n["vars"] if ".get()" in show(v.get("init"))]
+    if len(idv) != 1:
+        raise core.AnalysisBroken("Serializer::shared_ptr: identity variable not found")
+    pid = idv[0]
+    txt = [show(x) for x in top]
+    i_send = next((i for i, t in enumerate(txt) if t == "(*this)(%s)" % pid), None)
+    i_null = next((i for i, t in enumerate(txt) if t.startswith("if ((!%s)) return" % pid)), None)
+    clause("shared:identity", sp, i_send is not None and i_null is not None and i_send < i_null and i_send == 1, txt[:3], "identity transferred first, then `if (!identity) return`")
+    br = [n for n in top if n["k"] == "If" and "Operation::PACK" in show(n["cond"])]
+    okb = len(br) == 1 and br[0].get("else") is not None
+    cnd = show(strip(br[0]["cond"])) if br else ""
+    okb = okb and ("Operation::PACK ==" in cnd and "Operation::PACKSIZE ==" in cnd and "||" in cnd)
+    clause("shared:modes", sp, okb, cnd, "one branch for PACK or PACKSIZE, the other for UNPACK")
+    if okb:
+        pk = stmt_list(br[0]["then"])
+        first = "(this.m_ptrmap.count(%s) == 0)" % pid
+        okp = len(pk) == 1 and pk[0]["k"] == "If" and show(strip(pk[0]["cond"])) == first and pk[0].get("else") is None and [show(x) for x in stmt_list(pk[0]["then"])][:1] == ["(*this)((*%s))" % d] and any(("this.m_ptrmap[%s]" % pid) in show(x) for x in stmt_list(pk[0]["then"])[1:])
+        clause("shared:pack", sp, okp, [show(x)[:160] for x in pk], "if (map.count(identity) == 0) { serialize *data; record identity }", pk[0]["l"] if pk else None)
+        un = stmt_list(br[0]["else"])
+        oku = len(un) == 1 and un[0]["k"] == "If" and show(strip(un[0]["cond"])) == first and un[0].get("else") is not None
+        if oku:
+            th = [show(x) for x in stmt_list(un[0]["then"])]
+            el = [show(x) for x in stmt_list(un[0]["else"])]
+            oku = (len(th) == 3 and "std::make_shared" in th[0] and th[0].startswith("((PtrType &)%s = " % d) and th[1].startswith("(this.m_ptrmap[%s] = " % pid) and "(%s)" % d in th[1] and th[2] == "(*this)((*%s))" % d
+                   and len(el) == 1 and el[0].startswith("((PtrType &)%s = " % d) and "this.m_ptrmap[%s]" % pid in el[0])
+        clause("shared:unpack", sp, oku, [show(x)[:260] for x in un], "if (map.count(identity) == 0) { data = make_shared; map[identity] = data; unpack *data } else data = map[identity]", un[0]["l"] if un else None)
+    du = upf["params"][0]["n"]
+    topu = [x for x in stmt_list(upf["body"]) if show(x).strip()]
+    oku = len(topu) == 1 and topu[0]["k"] == "If" and topu[0].get("else") is not None and show(strip(topu[0]["cond"])) in ("(Operation::UNPACK != this.m_op)",)
+    clause("unique:modes", upf, oku, show(topu[0]["cond"]) if topu else "-", "if (op != UNPACK) pack side else unpack side")
+    if oku:
+        pk = [show(x) for x in stmt_list(topu[0]["then"])]
+        clause("unique:pack", upf, pk == ["(*this)((%s ? 1 : 0))" % du, "if (%s) { (*this)((*%s)) }" % (du, du)], pk, "flag (data ? 1 : 0), then *data iff data")
+        un = stmt_list(topu[0]["else"])
+        fl = [v["n"] for n in un if n["k"] == "Decl" for v in n["vars"]]
+        ut = [show(x) for x in un if x["k"] != "Decl"]
+        okk = len(fl) == 1 and len(ut) == 2 and ut[0] == "(*this)(%s)" % fl[0] and re.fullmatch(r"if \(\(%s == 1\)\) \{ \(\(PtrType &\)%s = std::make_unique\(\)\) \(\*this\)\(\(\*%s\)\) \}" % (fl[0], du, du), ut[1]) is not None
+        clause("unique:unpack", upf, okk, ut, "read the flag; iff it is 1 create the object and unpack into it")
+
+
 def run_driver(chk):
     """C11.phase: the generic Serializer's drivers reset the per-pass state before every pass over the data."""
     r = chk.rule("C11.phase", "Serializer::pack/unpack (all overloads): every pass over the data - each call that receives the driver's argument - is preceded, since the previous pass, by an assignment of the operation, by a reset of the shared-pointer map (the first pass: unless every driver ends with one) and by a reset of the counter that pass advances (PACKSIZE: the size, PACK/UNPACK: the position); the PACK pass is preceded by the resize of the buffer to the computed size", floor=6)
@@ -437,7 +494,7 @@ def run_driver(chk):
 
 def run_packer(chk):
     """C11.packer: the byte-level packer transfers every bit of a std::bitset."""
-    r = chk.rule("C11.packer", "MemPacker, std::bitset<Size>: packSize, pack and unpack move the same number of bytes, and that number holds all Size bits for every instantiated Size (3, 4, 10, NumFip): either the whole to_ullong() value through Packing<true, unsigned long long>, or a byte count c(Size) with 8 c(Size) >= Size (evaluated for the instantiated sizes as the compiler would)", floor=4)
+    r = chk.rule("C11.packer", "MemPacker, std::bitset<Size>: packSize, pack and unpack move the same number of bytes, and that number holds all Size bits for every instantiated Size (3, 4, 10, NumFip): either the whole to_ullong() value through Packing<true, unsigned long long>, or a byte count c(Size) with 8 c(Size) >= Size (evaluated for the instantiated sizes as the compiler would); time_point: its own tick count is transferred and rebuilt (no conversion through a coarser clock); std::string: the length as size_t, then exactly that many characters, and the output holds exactly them", floor=9)
     fx = chk.facts(["opm/common/utility/MemPacker.cpp"], files_re="^/repo/opm/(common/utility/MemPacker|input/eclipse/EclipseState/IOConfig/FIPConfig)")
     sizes = {}
     for k in fx.recs:
@@ -521,6 +578,61 @@ def run_packer(chk):
             raise core.AnalysisBroken("MemPacker bitset<%s>: the number of transferred bits could not be evaluated (%s)" % (sz_name, bits))
         if len(set(bits.values())) != 1 or min(bits.values()) < sz:
             chk.violation(r, key, "std::bitset<%s> (%d bits) is transferred as %s bits (packSize/pack/unpack): the flags in the upper bits do not survive the round trip (equal lengths, so nothing throws)" % (sz_name, sz, bits), fns["pack"]["file"], modes["pack"][2])
+
+
+    # --- time_point: the whole tick count, not a coarser clock
+    tp = {f["n"]: f for f in fx.fns if "time_point" in f["q"] and f["file"].endswith("MemPacker.cpp") and f.get("body") and f["n"] in ("pack", "packSize", "unpack")}
+    if sorted(tp) != ["pack", "packSize", "unpack"]:
+        raise core.AnalysisBroken("MemPacker: time_point packer functions found: %s" % sorted(tp))
+    coarse = []
+    for nm, f in tp.items():
+        for c in walk(f["body"]):
+            if c["k"] in ("Call", "MCall"):
+                cn = (c.get("fn") or c.get("m") or (c.get("callee") or {}).get("n") or "")
+                if re.search(r"(to_time_t|from_time_t|duration_cast|time_point_cast|floor|ceil|round)$", cn.split("<")[0]):
+                    coarse.append((nm, cn, c["l"]))
+    pk = [c for c in walk(tp["pack"]["body"]) if c["k"] == "Call" and "Packing<true" in (c.get("fn") or "")]
+    arg = show(strip(pk[0]["a"][0])) if len(pk) == 1 and pk[0].get("a") else None
+    datap = tp["pack"]["params"][0]["n"]
+    chk.instance(r, "time_point", sample=dict(packed=arg, conversions=[c[:2] for c in coarse]))
+    if coarse or arg not in ("%s.time_since_epoch().count()" % datap,):
+        chk.violation(r, "time_point", "the time_point packer transfers `%s`%s: time_point counts milliseconds, so anything but its own tick count (time_since_epoch().count()) drops the fraction of a second - a Schedule with report steps less than a second apart does not equal its unpacked copy" % (arg, (" and converts through %s" % sorted({c[1].split("::")[-1] for c in coarse})) if coarse else ""), tp["pack"]["file"], (coarse[0][2] if coarse else tp["pack"]["l"]))
+    up = tp["unpack"]
+    outp = up["params"][0]["n"]
+    asg = [show(x) for x in walk(up["body"]) if (x["k"] == "Bin" and x.get("asg") and show(strip(x["c"][0])) == outp) or (x["k"] == "OpCall" and x.get("op") == "=" and show(strip(x["a"][0])) == outp)]
+    chk.instance(r, "time_point:unpack", sample=dict(assignments=asg))
+    if len(asg) != 1 or "duration" not in asg[0]:
+        chk.violation(r, "time_point:unpack", "the time_point unpacker assigns %s; required: the value rebuilt from the transferred tick count (time_point(duration(ticks)))" % asg, up["file"], up["l"])
+    # --- std::string: length, then that many characters; the output receives exactly them
+    st_ = {f["n"]: f for f in fx.fns if re.search(r"Packing<false, ?std::(__cxx11::)?(basic_)?string", f["q"]) and f["file"].endswith("MemPacker.cpp") and f.get("body") and f["n"] in ("pack", "packSize", "unpack")}
+    if sorted(st_) != ["pack", "packSize", "unpack"]:
+        raise core.AnalysisBroken("MemPacker: string packer functions found: %s" % sorted(st_))
+    d_ = st_["pack"]["params"][0]["n"]
+    pcalls = [re.sub(r"Opm::Serialization::detail::", "", show(x)) for x in stmt_list(st_["pack"]["body"])]
+    okp = len(pcalls) == 2 and re.fullmatch(r"Packing<true, ?(unsigned long|std::size_t|size_t)>::pack\(%s\.size\(\), (\w+), (\w+)\)" % d_, pcalls[0]) is not None and re.fullmatch(r"Packing<true, ?char>::pack\(%s\.data\(\), %s\.size\(\), (\w+), (\w+)\)" % (d_, d_), pcalls[1]) is not None
+    chk.instance(r, "string:pack", sample=dict(statements=pcalls))
+    if not okp:
+        chk.violation(r, "string:pack", "the string packer does %s; required: the length as size_t, then data() with size() characters" % pcalls, st_["pack"]["file"], st_["pack"]["l"])
+    ds = st_["packSize"]["params"][0]["n"]
+    rets = [show(x["e"]) for x in walk(st_["packSize"]["body"]) if x["k"] == "Return"]
+    chk.instance(r, "string:packSize", sample=dict(returns=rets))
+    if rets not in (["(sizeof(std::size_t) + %s.size())" % ds], ["(%s.size() + sizeof(std::size_t))" % ds], ["(sizeof(unsigned long) + %s.size())" % ds]):
+        chk.violation(r, "string:packSize", "the string packer's size is %s; required sizeof(size_t) + size()" % rets, st_["packSize"]["file"], st_["packSize"]["l"])
+    us = st_["unpack"]
+    du = us["params"][0]["n"]
+    utxt = [re.sub(r"Opm::Serialization::detail::", "", show(x)) for x in stmt_list(us["body"])]
+    lens = [v["n"] for x in stmt_list(us["body"]) if x["k"] == "Decl" for v in x["vars"] if "size_t" in (v.get("t") or "") or "unsigned long" in (v.get("t") or "")]
+    oku = False
+    if len(lens) == 1:
+        L_ = lens[0]
+        order = [i_ for i_, t in enumerate(utxt) if re.search(r"Packing<true, ?(unsigned long|std::size_t|size_t)>::unpack\(%s," % L_, t)] + [i_ for i_, t in enumerate(utxt) if re.search(r"Packing<true, ?char>::unpack\(\w+\.data\(\), %s," % L_, t)]
+        sets = [t for t in utxt if re.fullmatch(r"%s\.(append|assign)\(\w+\.data\(\), %s\)" % (du, L_), t) or re.fullmatch(r"\(%s = std::string\{\w+\.data\(\), %s\}\)" % (du, L_), t)]
+        clears = [t for t in utxt if t == "%s.clear()" % du]
+        appended = any(".append(" in t for t in sets)
+        oku = len(order) == 2 and order[0] < order[1] and len(sets) == 1 and (not appended or len(clears) == 1 and utxt.index(clears[0]) < utxt.index(sets[0]))
+    chk.instance(r, "string:unpack", sample=dict(statements=utxt))
+    if not oku:
+        chk.violation(r, "string:unpack", "the string unpacker does %s; required: read the length, read that many characters, and give the output exactly these characters (cleared first if they are appended)" % utxt, us["file"], us["l"])
 
 
 def run(chk):
@@ -720,6 +832,7 @@ def run(chk):
             else:
                 chk.info("C11.exempt", "exemption %s::%s not needed on this tree" % k)
     run_driver(chk)
+    run_ptr(chk)
     run_packer(chk)
     chk.assumptions += [
         "clang 14 AST of the library units with the build's flags (HAVE_QUAD instantiations excluded)",
